@@ -29,7 +29,7 @@ for d in sorted(glob.glob(f'/verif/seeded/{pid}-m*')):
     earlier.append(f"- {', '.join(mm.get('files_touched') or [])}: {s[:260]}")
 print(f"""You are helping to evaluate a verification effort for the Go library fullstorydev/grpchan (alternate gRPC transports: an HTTP/1.1 wire protocol in httpgrpc/, an in-process channel in inprocgrpc/, helpers in the root package and internal/, a protoc plugin in cmd/protoc-gen-grpchan).
 
-Your scratch git worktree of the repository is {wt} . Work ONLY there (never in /repo, never look at or into /verif). The sandbox has no network; every shell call needs
+Your scratch git worktree of the repository is {wt} . Work ONLY there (never in /repo, never look at or into /verif). Other agents work in sibling worktrees of the same repository at the same time: do NOT use `git stash` (the stash is shared by all worktrees) -- use `git diff > file` / `git apply -R file` / `git checkout -- .` to switch between the changed and unchanged tree. The sandbox has no network; every shell call needs
   export GOFLAGS=-mod=mod GOPROXY=off GOSUMDB=off GOTOOLCHAIN=local
 
 This is the property the library is supposed to have:
